@@ -177,6 +177,10 @@ Lemma callable_kind_irrelevant k k' id ret x :
   /\ calls_of [ICall k id ret] = calls_of [ICall k' id ret].
 Proof. repeat split. Qed.
 
+(* an object is streamed as itself: it contributes what its own operator<< writes, like a string item *)
+Lemma object_item_as_string k s x : ss_put x (IObj k s) = ss_put x (IStr s).
+Proof. reflexivity. Qed.
+
 Lemma ss_put_dead it : ss_put dead it = (dead, []).
 Proof. reflexivity. Qed.
 
